@@ -4,7 +4,7 @@
    Spec/GkdiLayout.v (field tables from MS-GKDI 2.2.1-2.2.4, NDR64 stubs of GetKey). *)
 From V Require Import Prelude.Base Prelude.PyInt Prelude.PySlice Prelude.PyStr.
 From V Require Import gen.K_gkdi Model.Types Model.KeyId Model.Gkdi Model.GkdiView Spec.GkdiLayout.
-From V Require Import Proofs.GkdiLib Proofs.GkdiKeyId Proofs.GkdiEnvelope Proofs.GkdiGetKey.
+From V Require Import Model.Crypto Proofs.GkdiLib Proofs.GkdiKeyId Proofs.GkdiEnvelope Proofs.GkdiGetKey Proofs.GkdiStructs Proofs.GkdiLayoutEq.
 
 (* ---- round trips ---- *)
 Theorem C11_roundtrip_KeyIdentifier : forall k, wf_kid k = true ->
@@ -21,6 +21,58 @@ Theorem C11_getkey_roundtrip : forall g, wf_getkey g = true ->
   exists b, GetKey_pack g = Ok b /\ GetKey_unpack b = Ok g.
 Proof. exact GetKey_roundtrip. Qed.
 Print Assumptions C11_getkey_roundtrip.
+
+Theorem C11_roundtrip_KDFParameters : forall name, wf_kdfp name = true ->
+  exists b, KDFParameters_pack name = Ok b /\ KDFParameters_unpack b = Ok name.
+Proof. exact KDFParameters_roundtrip. Qed.
+Print Assumptions C11_roundtrip_KDFParameters.
+
+Theorem C11_roundtrip_FFCDHParameters : forall p, wf_ffp p = true ->
+  exists b, FFCDHParameters_pack p = Ok b /\ FFCDHParameters_unpack b = Ok p.
+Proof. exact FFCDHParameters_roundtrip. Qed.
+Print Assumptions C11_roundtrip_FFCDHParameters.
+
+(* integers with leading zero bytes, for every key length: wf_ffk only asks 0 <= v < 256^key_length *)
+Theorem C11_roundtrip_FFCDHKey : forall k, wf_ffk k = true ->
+  exists b, FFCDHKey_pack k = Ok b /\ FFCDHKey_unpack b = Ok k.
+Proof. exact FFCDHKey_roundtrip. Qed.
+Print Assumptions C11_roundtrip_FFCDHKey.
+
+Theorem C11_roundtrip_ECDHKey : forall k, wf_eck k = true ->
+  exists b, ECDHKey_pack k = Ok b /\ ECDHKey_unpack b = Ok k.
+Proof. exact ECDHKey_roundtrip. Qed.
+Print Assumptions C11_roundtrip_ECDHKey.
+
+(* ---- the encodings equal the independent table-driven encoder written from MS-GKDI ---- *)
+Theorem C11_layout_KeyIdentifier : forall k, wf_kid k = true ->
+  exists b, KeyIdentifier_pack k = Ok b /\ layout KeyIdentifier_table (spec_of_kid k) = Some b.
+Proof. exact KeyIdentifier_layout. Qed.
+Print Assumptions C11_layout_KeyIdentifier.
+
+Theorem C11_layout_GroupKeyEnvelope : forall e, wf_env e = true ->
+  exists b, GroupKeyEnvelope_pack e = Ok b /\ layout GroupKeyEnvelope_table (spec_of_env e) = Some b.
+Proof. exact GroupKeyEnvelope_layout. Qed.
+Print Assumptions C11_layout_GroupKeyEnvelope.
+
+Theorem C11_layout_KDFParameters : forall name, wf_kdfp name = true ->
+  exists b, KDFParameters_pack name = Ok b /\ layout KDFParameters_table name = Some b.
+Proof. exact KDFParameters_layout. Qed.
+Print Assumptions C11_layout_KDFParameters.
+
+Theorem C11_layout_FFCDHParameters : forall p, wf_ffp p = true ->
+  exists b, FFCDHParameters_pack p = Ok b /\ layout FFCDHParameters_table (spec_of_ffp p) = Some b.
+Proof. exact FFCDHParameters_layout. Qed.
+Print Assumptions C11_layout_FFCDHParameters.
+
+Theorem C11_layout_FFCDHKey : forall k, wf_ffk k = true ->
+  exists b, FFCDHKey_pack k = Ok b /\ layout FFCDHKey_table (spec_of_ffk k) = Some b.
+Proof. exact FFCDHKey_layout. Qed.
+Print Assumptions C11_layout_FFCDHKey.
+
+Theorem C11_layout_ECDHKey : forall k, wf_eck k = true ->
+  exists b, ECDHKey_pack k = Ok b /\ layout ECDHKey_table (spec_of_eck k) = Some b.
+Proof. exact ECDHKey_layout. Qed.
+Print Assumptions C11_layout_ECDHKey.
 
 (* ---- GetKey request stub = NDR64 encoding of the arguments, for every SD length (every
    residue mod 8) and a null / non-null root key pointer ---- *)
@@ -78,5 +130,14 @@ Example C11_wf_kid_example :
 Proof. exact wf_kid_example. Qed.
 Example C11_wf_env_example : exists e, wf_env e = true /\ gke_domain e = [128512; 0; 97] /\ gke_l0 e = 4294967295.
 Proof. eexists. split; [exact wf_env_example|split; reflexivity]. Qed.
+Example C11_wf_ffk_leading_zeros :
+  wf_ffk {| ffk_key_length := 2; ffk_field_order := 65521; ffk_generator := 3; ffk_public_key := 255 |} = true /\
+  FFCDHKey_pack {| ffk_key_length := 2; ffk_field_order := 65521; ffk_generator := 3; ffk_public_key := 255 |}
+  = Ok [68; 72; 80; 66; 2; 0; 0; 0; 255; 241; 0; 3; 0; 255].
+Proof. split; [exact wf_ffk_example|exact ffk_leading_zero_example]. Qed.
+Example C11_wf_small_examples :
+  wf_ffp {| ffp_key_length := 3; ffp_field_order := 65521; ffp_generator := 0 |} = true /\
+  wf_kdfp [] = true /\ wf_kdfp [128512] = true.
+Proof. split; [exact wf_ffp_example|split; reflexivity]. Qed.
 Example C11_wf_getkey_example : exists g, wf_getkey g = true /\ len (gk_target_sd g) = 5 /\ gk_l2 g = -2147483648.
 Proof. eexists. split; [exact wf_getkey_example|split; reflexivity]. Qed.
